@@ -180,7 +180,7 @@ fn observe(log: &MultiRecordLog, m: &Model, meta: usize) {
 ///  0 create   1 delete   2 append(None)   3 append(Some(next+2))   4 append(Some(last)) [no-op]
 ///  5 append(Some(last-1)) [Past]   6 empty batch [no-op]   7 truncate(first)   8 truncate(next+3)
 ///  9 batch of two records   10 truncate(first-1) [evicts nothing]
-fn log_script<const INIT: usize, const K: usize>(ops: [u8; K]) {
+fn log_script<const INIT: usize, const K: usize, const POLICY: usize>(ops: [u8; K]) {
     mark_case();
     const OFFSET: usize = 1000;
     let f = FileNumber::for_verif(9);
@@ -267,7 +267,14 @@ fn log_script<const INIT: usize, const K: usize>(ops: [u8; K]) {
     }
     drop(f0);
     drop(f1);
-    let mut log = new_log(tracker, f2, OFFSET, qs, PersistPolicy::Always(PersistAction::Flush));
+    // C14: the persist policy only decides when bytes are handed to the OS / the disk; the same model is
+    // the oracle under every policy (OnDelay reads the clock -- a foreign call -- and is not run)
+    let policy = match POLICY {
+        0 => PersistPolicy::Always(PersistAction::Flush),
+        1 => PersistPolicy::DoNothing,
+        _ => PersistPolicy::Always(PersistAction::FlushAndFsync),
+    };
+    let mut log = new_log(tracker, f2, OFFSET, qs, policy);
     observe(&log, &m, meta);
     let mut effective = 0;
     let mut j = 0;
@@ -448,6 +455,10 @@ fn log_script<const INIT: usize, const K: usize>(ops: [u8; K]) {
 }
 
 fn log_scripts<const INIT: usize, const ALPHA: usize, const K: usize, const S_LO: usize, const S_HI: usize>() {
+    log_scripts_pol::<INIT, ALPHA, K, 0, S_LO, S_HI>()
+}
+
+fn log_scripts_pol<const INIT: usize, const ALPHA: usize, const K: usize, const POLICY: usize, const S_LO: usize, const S_HI: usize>() {
     let alphabet: &[u8] = match ALPHA {
         // position_opt handling, no-ops and rejections, batches (one queue) + an op on the other queue
         0 => &[0, 2, 3, 4, 5, 6, 9, 7, 8, 16 + 0, 16 + 2],
@@ -468,7 +479,7 @@ fn log_scripts<const INIT: usize, const ALPHA: usize, const K: usize, const S_LO
             d /= n;
             j += 1;
         }
-        log_script::<INIT, K>(ops);
+        log_script::<INIT, K, POLICY>(ops);
         s += 1;
     }
 }
